@@ -237,7 +237,7 @@ func (b *rbuilder) goString(term string) string {
 	if n < 0 {
 		n = 0
 	}
-	if n > 64 {
+	if n > 4096 {
 		rfail("model string of length %d", n)
 	}
 	id := len(b.strs)
@@ -307,7 +307,7 @@ func (b *rbuilder) value(term string, t types.Type, depth int) string {
 		if n == 0 {
 			return "nil"
 		}
-		if n > 16 {
+		if n > 64 {
 			rfail("model slice of length %d", n)
 		}
 		var els []string
